@@ -5,22 +5,37 @@
 //
 // Every plan is executed 5 times on fresh deep copies of the root (runs 1-3 on one Plan object,
 // runs 4-5 on freshly built Plan objects), then rebuilt from Plan.String() (parsed with a fresh
-// sen.Parser) and from Plan.Simplify() and executed once more each. Only observations are recorded;
-// the verdicts are taken by the TLC trace specification TraceAsm.
+// sen.Parser) and from Plan.Simplify() and executed once more each; the plan is also written as SEN TEXT
+// (all strings quoted / bare tokens where SEN allows them) and run through the whole pipeline
+// sen.Parse -> asm.NewPlan -> Plan.Execute. Only observations are recorded; the verdicts are taken by
+// the TLC trace specification TraceAsm.
+//
+// Process structure: "exec" is a supervisor. The cases are executed by child processes ("asmx worker",
+// one case per line in, one observation per line out). A child that does not answer a case within the
+// watchdog limit writes the observation r = "hang" (with the phase it is stuck in: NewPlan, Execute,
+// String, sen.Parse ...) and exits; the supervisor starts a new child for the remaining cases, so one
+// spinning plan costs one case, not the batch. A child that dies (fatal error: stack overflow, ...) gives
+// the observation r = "crash". A case with a history ("pre": plans executed before it in the same
+// process) always gets a fresh child of its own, and its plan is also run alone in another fresh child
+// ("alone"): the same plan after other plans must behave like the plan alone.
 package main
 
 import (
 	"bufio"
+	"bytes"
 	"encoding/json"
 	"fmt"
+	"io"
 	"math"
 	"os"
+	"os/exec"
 	"reflect"
 	"runtime"
 	"sort"
 	"strconv"
 	"strings"
 	"sync"
+	"sync/atomic"
 	"time"
 
 	"github.com/ohler55/ojg/asm"
@@ -35,6 +50,13 @@ type caseIn struct {
 	Root  map[string]any `json:"root"`
 	Root2 map[string]any `json:"root2,omitempty"` // a second, different root for the same Plan object
 	Bare  bool           `json:"bare,omitempty"`
+	Pre   []preStep      `json:"pre,omitempty"` // history: plans executed before this one in the same (fresh) process
+}
+
+type preStep struct {
+	Plan map[string]any `json:"plan"`
+	Root map[string]any `json:"root,omitempty"` // absent: the root of the case itself
+	Bare bool           `json:"bare,omitempty"`
 }
 
 type run struct {
@@ -60,6 +82,13 @@ type caseOut struct {
 	Text1    string `json:"text1"`
 	AltSame  run    `json:"alt_same"`
 	AltFresh run    `json:"alt_fresh"`
+	// the plan written as SEN text and run through sen.Parse -> NewPlan -> Execute: [all strings quoted, bare tokens]
+	Sen  string `json:"sen"`
+	Txt  []run  `json:"txt"`
+	Jpok bool   `json:"jpok"` // fact for the specification: some string literal starting with $ or @ IS accepted by jp.ParseString
+	// history cases: number of plans executed before this one in the same process, and the plan run alone in a fresh process
+	NPre  int `json:"npre"`
+	Alone run `json:"alone"`
 }
 
 func main() {
@@ -80,6 +109,8 @@ func main() {
 		os.Stdout.Write(append(b, '\n'))
 	case "exec":
 		execCases()
+	case "worker":
+		worker()
 	default:
 		fmt.Fprintln(os.Stderr, "unknown mode", os.Args[1])
 		os.Exit(2)
@@ -311,7 +342,13 @@ func encInt(i int64) any {
 }
 
 // ---------------------------------------------------------------- execution
+// phase names the library call in progress (read by the child's watchdog when a case does not come back)
+var phase atomic.Value
+
+func setPhase(s string) { phase.Store(s) }
+
 func execute(p *asm.Plan, root map[string]any) (r run) {
+	setPhase("Execute")
 	defer func() {
 		if x := recover(); x != nil {
 			r = run{R: "panic", Root: enc(nil, 0), M: fmt.Sprintf("%T: %v", x, x)}
@@ -324,6 +361,13 @@ func execute(p *asm.Plan, root map[string]any) (r run) {
 	return run{R: "ok", Root: enc(root, 0)}
 }
 
+// justRun executes a plan of the history: only its having run matters, nothing is recorded
+func justRun(p *asm.Plan, root map[string]any) {
+	setPhase("Execute(history)")
+	defer func() { _ = recover() }()
+	_ = p.Execute(root)
+}
+
 func clip(s string) string {
 	if len(s) > 160 {
 		return s[:160]
@@ -332,6 +376,7 @@ func clip(s string) string {
 }
 
 func build(raw any) (p *asm.Plan, fail *run) {
+	setPhase("NewPlan")
 	defer func() {
 		if x := recover(); x != nil {
 			fail = &run{R: "panic", Root: enc(nil, 0), M: fmt.Sprintf("NewPlan %T: %v", x, x)}
@@ -345,7 +390,25 @@ func build(raw any) (p *asm.Plan, fail *run) {
 }
 
 func one(c caseIn) caseOut {
-	out := caseOut{ID: c.ID, Src: c.Src, Plan: c.Plan, Root: c.Root, Bare: c.Bare}
+	out := caseOut{ID: c.ID, Src: c.Src, Plan: c.Plan, Root: c.Root, Bare: c.Bare, NPre: len(c.Pre), Alone: run{R: "skip"}}
+	// the history: plans executed before this one in the same process (fresh Plan objects, fresh roots; outcomes not recorded)
+	var sameRoot any
+	for _, h := range c.Pre {
+		hr := toGo(h.Plan).([]any)
+		if h.Bare && len(hr) > 0 {
+			hr = hr[1:]
+		}
+		if hp, hf := build(hr); hf == nil && hp != nil {
+			if h.Root == nil {
+				if sameRoot == nil {
+					sameRoot = toGo(c.Root)
+				}
+				justRun(hp, deep(sameRoot).(map[string]any))
+			} else {
+				justRun(hp, deep(toGo(h.Root)).(map[string]any))
+			}
+		}
+	}
 	raw := toGo(c.Plan).([]any)
 	if c.Bare && len(raw) > 0 {
 		raw = raw[1:]
@@ -390,6 +453,10 @@ func one(c caseIn) caseOut {
 	}
 	// rebuilt from the printed form and from the simplified form (taken from a fresh, never executed plan)
 	out.Str, out.Simp, out.Text = rebuilt(raw, fresh)
+	// the plan as SEN text through the whole pipeline sen.Parse -> NewPlan -> Execute
+	out.Jpok = pathLikeAccepted(c.Plan)
+	out.Sen = senText(c.Plan, c.Bare, false)
+	out.Txt = []run{textRun(out.Sen, fresh), textRun(senText(c.Plan, c.Bare, true), fresh)}
 	// group identical observations: a run that equals run 1 is recorded as {eq:1}
 	first, _ := json.Marshal(out.Runs[0])
 	same := func(r run) bool {
@@ -407,6 +474,11 @@ func one(c caseIn) caseOut {
 	if same(out.Simp) {
 		out.Simp = run{Eq: 1}
 	}
+	for i := range out.Txt {
+		if same(out.Txt[i]) {
+			out.Txt[i] = run{Eq: 1}
+		}
+	}
 	// the two runs on the second root: only their agreement matters; identical observations are grouped
 	if out.AltSame.R != "skip" {
 		a, _ := json.Marshal(run{R: out.AltSame.R, Root: out.AltSame.Root})
@@ -423,6 +495,7 @@ func one(c caseIn) caseOut {
 // members sorted (String() writes them in Go map order, which is not a change of the plan). A jp.Expr or *asm.Fn that
 // sits inside an uncompiled list is marked: String() would write it as a list of fragments / a struct.
 func planText(p *asm.Plan) (s string) {
+	setPhase("Simplify")
 	defer func() {
 		if x := recover(); x != nil {
 			s = fmt.Sprintf("<Simplify panics: %v>", x)
@@ -485,7 +558,9 @@ func rebuilt(raw []any, fresh func() map[string]any) (rs, rp run, text string) {
 				rs = run{R: "panic", Root: enc(nil, 0), M: fmt.Sprintf("String %T: %v", x, x)}
 			}
 		}()
+		setPhase("String")
 		text = p.String()
+		setPhase("sen.Parse")
 		v, err := senParse(text)
 		if err != nil {
 			rs = run{R: "unparsable", Root: enc(nil, 0), M: clip(err.Error())}
@@ -505,6 +580,7 @@ func rebuilt(raw []any, fresh func() map[string]any) (rs, rp run, text string) {
 			}
 		}()
 		p3, _ := build(raw)
+		setPhase("Simplify")
 		v := p3.Simplify()
 		p4, f4 := build(v)
 		if f4 != nil {
@@ -528,13 +604,221 @@ func senParse(text string) (v any, err error) {
 	return sp.Parse([]byte(text))
 }
 
-func execCases() {
-	// the inspect function prints to os.Stdout: keep the trace stream apart from it
+// ---------------------------------------------------------------- SEN text of a plan
+func safeToken(s string, fn bool) bool {
+	if s == "" || s == "null" || s == "true" || s == "false" {
+		return false
+	}
+	for i := 0; i < len(s); i++ {
+		c := s[i]
+		switch {
+		case 'a' <= c && c <= 'z', 'A' <= c && c <= 'Z', c == '_':
+		case c == '$' || c == '@':
+			if fn {
+				return false
+			}
+		case ('0' <= c && c <= '9') || c == '.':
+			if i == 0 || fn {
+				return false
+			}
+		case c == '?':
+			if !fn || i == 0 {
+				return false
+			}
+		default:
+			return false
+		}
+	}
+	return true
+}
+
+func senStr(sb *strings.Builder, s string, bare, fn bool) {
+	if bare && safeToken(s, fn) {
+		sb.WriteString(s)
+		return
+	}
+	b, _ := json.Marshal(s)
+	sb.Write(b)
+}
+
+func senNode(sb *strings.Builder, n any, bare bool, drop bool) {
+	m, _ := n.(map[string]any)
+	switch m["t"] {
+	case "null":
+		sb.WriteString("null")
+	case "bool":
+		if m["v"].(bool) {
+			sb.WriteString("true")
+		} else {
+			sb.WriteString("false")
+		}
+	case "int", "bigint":
+		fmt.Fprintf(sb, "%d", toGo(m).(int64))
+	case "flt":
+		f := toGo(m).(float64)
+		t := strconv.FormatFloat(f, 'f', -1, 64)
+		if !strings.ContainsAny(t, ".eE") {
+			t += ".0"
+		}
+		sb.WriteString(t)
+	case "str":
+		senStr(sb, bytesOf(m["v"]), bare, false)
+	case "path":
+		senStr(sb, pathText(m), bare, false)
+	case "arr":
+		l, _ := m["v"].([]any)
+		sb.WriteByte('[')
+		for i, e := range l {
+			if i > 0 {
+				sb.WriteByte(' ')
+			}
+			senNode(sb, e, bare, false)
+		}
+		sb.WriteByte(']')
+	case "obj":
+		mm, _ := m["m"].(map[string]any)
+		keys := make([]string, 0, len(mm))
+		for k := range mm {
+			keys = append(keys, k)
+		}
+		sort.Strings(keys)
+		sb.WriteByte('{')
+		for i, k := range keys {
+			if i > 0 {
+				sb.WriteByte(' ')
+			}
+			senStr(sb, k, bare, true)
+			sb.WriteString(": ")
+			senNode(sb, mm[k], bare, false)
+		}
+		sb.WriteByte('}')
+	case "call":
+		l, _ := m["a"].([]any)
+		sb.WriteByte('[')
+		if !drop {
+			senStr(sb, m["fn"].(string), bare, true)
+		}
+		for i, e := range l {
+			if i > 0 || !drop {
+				sb.WriteByte(' ')
+			}
+			senNode(sb, e, bare, false)
+		}
+		sb.WriteByte(']')
+	case "pair":
+		sb.WriteByte('[')
+		senNode(sb, m["c"], bare, false)
+		sb.WriteByte(' ')
+		senNode(sb, m["v"], bare, false)
+		sb.WriteByte(']')
+	default:
+		panic(fmt.Sprintf("bad tag %v", m["t"]))
+	}
+}
+
+// senText writes the plan the way an author types it: paths and function names as tokens / strings, string
+// literals quoted (bare = false) or as bare SEN tokens where the characters allow it (bare = true).
+func senText(plan map[string]any, dropName, bare bool) string {
+	var sb strings.Builder
+	senNode(&sb, plan, bare, dropName)
+	return sb.String()
+}
+
+func textRun(text string, fresh func() map[string]any) run {
+	setPhase("sen.Parse(text)")
+	v, err := senParse(text)
+	if err != nil {
+		return run{R: "unparsable", Root: enc(nil, 0), M: clip(err.Error())}
+	}
+	p, f := build(v)
+	if f != nil {
+		return *f
+	}
+	if p == nil {
+		return run{R: "skip", Root: enc(nil, 0)}
+	}
+	return execute(p, fresh())
+}
+
+// pathLikeAccepted: does the plan hold a string literal that starts with $ or @ and that jp.ParseString accepts?  (A fact
+// the specification cannot compute: such a literal denotes a path, every other string is a plain string.)
+func pathLikeAccepted(n any) bool {
+	switch t := n.(type) {
+	case map[string]any:
+		if t["t"] == "str" {
+			s := bytesOf(t["v"])
+			if len(s) > 0 && (s[0] == '$' || s[0] == '@') {
+				if _, err := jp.ParseString(s); err == nil {
+					return true
+				}
+			}
+			return false
+		}
+		for _, v := range t {
+			if pathLikeAccepted(v) {
+				return true
+			}
+		}
+	case []any:
+		for _, v := range t {
+			if pathLikeAccepted(v) {
+				return true
+			}
+		}
+	}
+	return false
+}
+
+// ---------------------------------------------------------------- child: one case per line
+func failOut(c caseIn, r, m string) caseOut {
+	f := run{R: r, Root: enc(nil, 0), M: m}
+	return caseOut{ID: c.ID, Src: c.Src, Plan: c.Plan, Root: c.Root, Bare: c.Bare, Runs: []run{f, f, f, f, f},
+		Str: run{R: "skip", Root: enc(nil, 0)}, Simp: run{R: "skip", Root: enc(nil, 0)}, AltSame: run{R: "skip"}, AltFresh: run{R: "skip"},
+		Txt: []run{{R: "skip", Root: enc(nil, 0)}, {R: "skip", Root: enc(nil, 0)}}, NPre: len(c.Pre), Alone: run{R: "skip"}}
+}
+
+func hangLimit() time.Duration {
+	limit := 20 * time.Second
+	if s := os.Getenv("VERIF_HANG_S"); s != "" {
+		if n, err := strconv.Atoi(s); err == nil {
+			limit = time.Duration(n) * time.Second
+		}
+	}
+	return limit
+}
+
+func worker() {
+	// the inspect function prints to os.Stdout: keep the observation stream apart from it
 	traceOut := os.Stdout
 	if dn, err := os.OpenFile(os.DevNull, os.O_WRONLY, 0); err == nil {
 		os.Stdout = dn
 	}
-	var cases []caseIn
+	limit := hangLimit()
+	if len(os.Args) > 2 {
+		if n, err := strconv.Atoi(os.Args[2]); err == nil && n > 0 {
+			limit = time.Duration(n) * time.Second
+		}
+	}
+	var mu sync.Mutex // guards the output stream and the in-flight record
+	var cur *caseIn
+	var since time.Time
+	setPhase("")
+	go func() { // watchdog: the case in flight is given up after the limit
+		for {
+			time.Sleep(100 * time.Millisecond)
+			mu.Lock()
+			if cur != nil && time.Since(since) > limit {
+				ph, _ := phase.Load().(string)
+				if ph == "" {
+					ph = "?"
+				}
+				b, _ := json.Marshal(failOut(*cur, "hang", ph))
+				traceOut.Write(append(append([]byte("HANG "), b...), '\n'))
+				os.Exit(3)
+			}
+			mu.Unlock()
+		}
+	}()
 	sc := bufio.NewScanner(os.Stdin)
 	sc.Buffer(make([]byte, 1<<20), 1<<28)
 	for sc.Scan() {
@@ -546,70 +830,290 @@ func execCases() {
 			fmt.Fprintln(os.Stderr, "bad case:", err)
 			os.Exit(2)
 		}
+		mu.Lock()
+		cur, since = &c, time.Now()
+		mu.Unlock()
+		o := one(c)
+		b, err := json.Marshal(o)
+		if err != nil {
+			fmt.Fprintln(os.Stderr, "marshal:", err)
+			os.Exit(2)
+		}
+		mu.Lock()
+		cur = nil
+		traceOut.Write(append(append([]byte("OK "), b...), '\n'))
+		mu.Unlock()
+	}
+}
+
+// ---------------------------------------------------------------- supervisor
+type child struct {
+	cmd   *exec.Cmd
+	in    io.WriteCloser
+	lines chan []byte
+	errb  *strings.Builder
+}
+
+func startChild(limitS int) (*child, error) {
+	cmd := exec.Command(os.Args[0], "worker", strconv.Itoa(limitS))
+	in, err := cmd.StdinPipe()
+	if err != nil {
+		return nil, err
+	}
+	outp, err := cmd.StdoutPipe()
+	if err != nil {
+		return nil, err
+	}
+	eb := &strings.Builder{}
+	cmd.Stderr = eb
+	if err = cmd.Start(); err != nil {
+		return nil, err
+	}
+	ch := &child{cmd: cmd, in: in, lines: make(chan []byte, 1), errb: eb}
+	go func() {
+		rd := bufio.NewReaderSize(outp, 1<<20)
+		for {
+			l, err := rd.ReadBytes('\n')
+			if len(l) > 0 && l[len(l)-1] == '\n' {
+				ch.lines <- l
+			}
+			if err != nil {
+				close(ch.lines)
+				return
+			}
+		}
+	}()
+	return ch, nil
+}
+
+func (ch *child) stop() {
+	ch.in.Close()
+	done := make(chan struct{})
+	go func() { ch.cmd.Wait(); close(done) }()
+	select {
+	case <-done:
+	case <-time.After(5 * time.Second):
+		ch.cmd.Process.Kill()
+		<-done
+	}
+}
+
+func (ch *child) kill() {
+	ch.cmd.Process.Kill()
+	ch.cmd.Wait()
+}
+
+// do sends one case and waits for its observation; alive = the child can take another case
+// do sends one case (its wire form, one JSON line) and waits for the observation; alive = the child can take another case
+func (ch *child) do(wire []byte, limit time.Duration) (res []byte, alive bool) {
+	fail := func(r, m string) []byte {
+		var c caseIn
+		if err := json.Unmarshal(wire, &c); err != nil {
+			fmt.Fprintln(os.Stderr, "supervisor: bad case:", err)
+			os.Exit(2)
+		}
+		o, _ := json.Marshal(failOut(c, r, m))
+		return append(o, '\n')
+	}
+	if _, err := ch.in.Write(wire); err != nil {
+		ch.kill()
+		return fail("crash", "child gone: "+clip(ch.errb.String())), false
+	}
+	select {
+	case l, ok := <-ch.lines:
+		if !ok { // died without an answer: a fatal error of the Go runtime (stack overflow, concurrent map access ...)
+			ch.cmd.Wait()
+			msg := ch.errb.String()
+			if len(msg) > 300 {
+				msg = msg[:300]
+			}
+			return fail("crash", msg), false
+		}
+		if bytes.HasPrefix(l, []byte("HANG ")) {
+			ch.cmd.Wait()
+			return l[5:], false
+		}
+		return l[3:], true
+	case <-time.After(limit + 15*time.Second): // the child's own watchdog did not fire: the whole process is stuck
+		ch.kill()
+		return fail("hang", "process"), false
+	}
+}
+
+// the supervisor's view of a case: the fields it needs, the rest as raw JSON (cases are passed on, not re-encoded)
+type lightCase struct {
+	ID     int             `json:"id"`
+	Src    string          `json:"src"`
+	Bare   bool            `json:"bare"`
+	Plan   json.RawMessage `json:"plan"`
+	Root   json.RawMessage `json:"root"`
+	Root2  json.RawMessage `json:"root2"`
+	PreRef []int           `json:"pre_ref"`
+	HasPre json.RawMessage `json:"pre"`
+}
+
+func execCases() {
+	var lines [][]byte
+	var cases []lightCase
+	sc := bufio.NewScanner(os.Stdin)
+	sc.Buffer(make([]byte, 1<<20), 1<<28)
+	for sc.Scan() {
+		if len(sc.Bytes()) == 0 {
+			continue
+		}
+		l := append(append([]byte{}, sc.Bytes()...), '\n')
+		var c lightCase
+		if err := json.Unmarshal(l, &c); err != nil {
+			fmt.Fprintln(os.Stderr, "bad case:", err)
+			os.Exit(2)
+		}
+		lines = append(lines, l)
 		cases = append(cases, c)
+	}
+	byID := map[int]int{}
+	for i, c := range cases {
+		byID[c.ID] = i
+	}
+	// wire form of a case with a history given by reference: the raw plans of the referenced cases are spliced in
+	wire := func(i int, withPre bool) []byte {
+		c := cases[i]
+		var b bytes.Buffer
+		fmt.Fprintf(&b, `{"id":%d,"src":%q,"bare":%v,"plan":%s,"root":%s`, c.ID, c.Src, c.Bare, c.Plan, c.Root)
+		if len(c.Root2) > 0 {
+			fmt.Fprintf(&b, `,"root2":%s`, c.Root2)
+		}
+		if withPre {
+			b.WriteString(`,"pre":[`)
+			for k, id := range c.PreRef {
+				j, ok := byID[id]
+				if !ok {
+					fmt.Fprintln(os.Stderr, "bad pre_ref", id)
+					os.Exit(2)
+				}
+				if k > 0 {
+					b.WriteByte(',')
+				}
+				fmt.Fprintf(&b, `{"plan":%s,"bare":%v`, cases[j].Plan, cases[j].Bare)
+				if !bytes.Equal(cases[j].Root, c.Root) { // (absent = the root of the case itself: sent and converted once)
+					fmt.Fprintf(&b, `,"root":%s`, cases[j].Root)
+				}
+				b.WriteByte('}')
+			}
+			b.WriteByte(']')
+		}
+		b.WriteString("}\n")
+		return b.Bytes()
 	}
 	res := make([][]byte, len(cases))
 	nw := runtime.NumCPU()
 	if nw > 8 {
 		nw = 8
 	}
+	if nw > len(cases) {
+		nw = len(cases)
+	}
+	base := hangLimit()
+	explicit := os.Getenv("VERIF_HANG_S") != ""
 	var mu sync.Mutex
-	cur := -1
-	inflight := make([]int64, nw)
-	inflightCase := make([]int, nw)
+	cur, hangs := -1, 0
+	// after two cases have been given up the rest of the batch runs with a short limit (every hang verdict is confirmed
+	// stand-alone with a long one anyway)
+	limitNow := func() time.Duration {
+		mu.Lock()
+		defer mu.Unlock()
+		if !explicit && hangs >= 2 && base > 3*time.Second {
+			return 3 * time.Second
+		}
+		return base
+	}
+	fatal := func(err error) {
+		fmt.Fprintln(os.Stderr, "supervisor:", err)
+		os.Exit(2)
+	}
+	oneShot := func(w []byte) []byte {
+		lim := limitNow()
+		ch, err := startChild(int(lim / time.Second))
+		if err != nil {
+			fatal(err)
+		}
+		r, alive := ch.do(w, lim)
+		if alive {
+			ch.stop()
+		}
+		return r
+	}
+	// stripPre: the wire form of a case that came with its history by value (replay), without the history
+	stripPre := func(l []byte) []byte {
+		var m map[string]json.RawMessage
+		if err := json.Unmarshal(l, &m); err != nil {
+			fatal(err)
+		}
+		delete(m, "pre")
+		b, _ := json.Marshal(m)
+		return append(b, '\n')
+	}
 	var wg sync.WaitGroup
 	for w := 0; w < nw; w++ {
 		wg.Add(1)
-		go func(w int) {
+		go func() {
 			defer wg.Done()
+			var ch *child
 			for {
 				mu.Lock()
 				cur++
 				i := cur
-				if i >= len(cases) {
-					inflight[w] = 0
-					mu.Unlock()
-					return
-				}
-				inflight[w] = time.Now().UnixNano()
-				inflightCase[w] = i
 				mu.Unlock()
-				b, err := json.Marshal(one(cases[i]))
-				if err != nil {
-					fmt.Fprintln(os.Stderr, "marshal:", err)
-					os.Exit(2)
+				if i >= len(cases) {
+					break
 				}
-				res[i] = append(b, '\n')
-			}
-		}(w)
-	}
-	done := make(chan struct{})
-	go func() { wg.Wait(); close(done) }()
-	limit := 20 * time.Second
-	if s := os.Getenv("VERIF_HANG_S"); s != "" {
-		if n, err := strconv.Atoi(s); err == nil {
-			limit = time.Duration(n) * time.Second
-		}
-	}
-	tick := time.NewTicker(time.Second)
-loop:
-	for {
-		select {
-		case <-done:
-			break loop
-		case <-tick.C:
-			mu.Lock()
-			for w := range inflight {
-				if inflight[w] != 0 && time.Now().UnixNano()-inflight[w] > int64(limit) {
-					b, _ := json.Marshal(cases[inflightCase[w]])
-					fmt.Fprintf(os.Stderr, "HANG %s\n", b)
-					os.Exit(3)
+				c := cases[i]
+				byRef := len(c.PreRef) > 0
+				byVal := len(c.HasPre) > 2 && !bytes.Equal(bytes.TrimSpace(c.HasPre), []byte("null"))
+				if byRef || byVal {
+					// a history case: a fresh process for the history + plan, another fresh one for the plan alone
+					var full, ar []byte
+					if byRef {
+						full, ar = oneShot(wire(i, true)), oneShot(wire(i, false))
+					} else {
+						full, ar = oneShot(lines[i]), oneShot(stripPre(lines[i]))
+					}
+					var fo, ao caseOut
+					if json.Unmarshal(full, &fo) != nil || json.Unmarshal(ar, &ao) != nil || len(ao.Runs) == 0 {
+						fatal(fmt.Errorf("bad observation for history case %d", c.ID))
+					}
+					fo.Alone = ao.Runs[0]
+					b, _ := json.Marshal(fo)
+					res[i] = append(b, '\n')
+					if fo.Runs[0].R == "hang" {
+						mu.Lock()
+						hangs++
+						mu.Unlock()
+					}
+					continue
+				}
+				lim := limitNow()
+				if ch == nil {
+					var err error
+					if ch, err = startChild(int(lim / time.Second)); err != nil {
+						fatal(err)
+					}
+				}
+				r, alive := ch.do(lines[i], lim)
+				res[i] = r
+				if !alive {
+					ch = nil
+					mu.Lock()
+					hangs++
+					mu.Unlock()
 				}
 			}
-			mu.Unlock()
-		}
+			if ch != nil {
+				ch.stop()
+			}
+		}()
 	}
-	out := bufio.NewWriterSize(traceOut, 1<<20)
+	wg.Wait()
+	out := bufio.NewWriterSize(os.Stdout, 1<<20)
 	for _, l := range res {
 		out.Write(l)
 	}
